@@ -254,8 +254,8 @@ CHECKS['C10'] = {
 
 CHECKS['C09'] = {
     'category': 'other',
-    'text': 'Only the structural clauses of the property are decided; every accuracy figure (1e-13 / 1e-12 / 1e-10 / 1.5e-7) is a numerical statement '
-            'about approximations over a continuum of arguments and is NOT decided. Decided on MIR terms: erf returns -erf(-x) for x < 0 (odd bit for '
+    'text': 'The structural clauses of the property are decided, and the accuracy figures are refuted (never proved) for loop-free branches only: the accuracy of '
+            'a series summed in a loop (the Lanczos sums) over a continuum of arguments is NOT decided. Decided on MIR terms: erf returns -erf(-x) for x < 0 (odd bit for '
             'bit); its closed form on x >= 0 stays inside [-1, 1] by interval branch-and-bound over [0, inf) (so |erf| <= 1); beta(a,b) is '
             'gamma(a)*gamma(b)/gamma(a+b) (three evaluations with these arguments; exactly symmetric because IEEE * and + commute); below its threshold '
             'digamma(x) = digamma(x+1) - 1/x (the recurrence holds by construction there) and its asymptotic branch is ln x - 1/(2x) - sum B_2k/(2k x^2k) '
@@ -263,8 +263,8 @@ CHECKS['C09'] = {
             'sqrt(2pi) t^(z-1/2) e^-t A(z) and ln_gamma is the logarithm of the same form with the same t (log-linear normal form), the series divides '
             'coefficient k by z-1+k.',
     'design_ref': 'DESIGN.md 4.9 (as revised), 9.8',
-    'note': 'A change of a Lanczos / Abramowitz-Stegun coefficient, of g, of the number of terms or of the recurrence threshold is invisible to these '
-            'rules: they are necessary conditions of the stated identities, not the accuracy claim.',
+    'note': 'A change of a Lanczos coefficient, of g or of the number of Lanczos terms is invisible to these rules (loop-carried value). A changed '
+            'Abramowitz-Stegun coefficient, digamma threshold or added closed-form fast path is seen only if its error at the witness arguments exceeds the refutation margin.',
     'technique': 'term-shape rules on MIR closed forms + interval branch-and-bound abstract interpretation + exact rational table (Bernoulli numbers) + log-linear normal form comparison of sibling functions',
 }
 
@@ -287,7 +287,9 @@ _R9 = {
     'C07': ' total: trapz, romberg and quad5 can return for every interval (a < b, a > b, a = b) with at least one panel.',
     'C08': ' first-occurrence follows delegation to helpers and std min_by/max_by (last maximum); merge: a routine joining two (count, mean, M2) aggregates is '
            'evaluated on exact partitions of equal and unequal size; value filters keep every finite observation.',
-    'C09': ' self-call-identity: every branch that reduces through gamma / ln_gamma itself equals the true function at exact witnesses of its own conditions.',
+    'C09': ' self-call-identity: every branch that reduces through gamma / ln_gamma itself equals the true function at exact witnesses of its own conditions; '
+           'branch-accuracy: every loop-free return site of gamma, digamma and erf is evaluated at exact witnesses of its conditions against the true function '
+           '(refuted above 10x the stated relative / 2x the stated absolute figure); the accuracy of the Lanczos sums (loop-carried) is not decided.',
     'C12': ' compatible-returns: every compatible (matrix, vector-as-row) shape witness 1..3 can return through promotion, fast paths and dispatch.',
     'C13': ' Value filters on the way from fit / acf keep every finite observation.',
     'C14': ' data-filter: a value filter on the way from fit keeps every finite observation (is_normal drops 0.0).',
